@@ -76,19 +76,23 @@ theorem runNodeUpdate_eq_prefix_tail (fuel : Nat) (r : Root) (cur : Id) :
       | .error e => .error e
       | .ok (r1, eq, cl, old) =>
         if r1.get? cur = none then .ok r1 else updateTail fuel r1 cur eq cl old := by
-  simp only [runNodeUpdate, updatePrefix]
+  simp only [runNodeUpdate, updatePrefix, updateTail]
   split
-  · rfl
-  · split
-    · rfl
-    · split
-      · rfl
-      · split
-        · rfl
-        · rfl
-        · split
-          · rfl
-          · rfl
+  · rename_i h; simp only [h]
+  · rename_i n h; simp only [h]
+    split
+    · rename_i e h2; simp only [h2]
+    · rename_i r2 h2; simp only [h2]
+      split
+      · rename_i h3; simp only [h3]
+      · rename_i n3 h3; simp only [h3]
+        split
+        · rename_i hcb; simp only [hcb]
+        · rename_i hcb hval; simp only [hcb, hval]
+        · rename_i eq cl old hcb hval; simp only [hcb, hval]
+          split
+          · rename_i e h4; simp only [h4]
+          · rename_i r4 h4; simp only [h4]; rfl
 
 /-- `run_node_update` before the repair D22: the body runs even if the node is gone -/
 def runNodeUpdateOld (fuel : Nat) (r : Root) (cur : Id) : Except Panic Root :=
